@@ -67,7 +67,8 @@ def required(tier):
             "prog_targets_compared": 100, "prog_targets_with_prior_frequencies": 20, "prog_targets_with_zero_frequency_allele": 5,
             "prog_targets_inbred": 20, "prog_datasets_per_sample_inbreeding": 4, "prog_records_with_tiny_nonzero_prior": 5,
             "wide_gibbs_vectors": 400, "wide_mh_vectors": 400, "wide_vectors_allele_index_ge_64": 200, "wide_high_ploidy_instances": 4,
-            "reuse_second_fits_compared": 60, "reuse_llk_cells_checked": 2000, "reuse_second_fit_revisits_genotype_of_first": 20}
+            "reuse_second_fits_compared": 60, "reuse_llk_cells_checked": 2000, "reuse_second_fit_revisits_genotype_of_first": 20,
+            "instances_with_zero_probability_read_entries": 10}
 
 
 def make_instance(rng, tier):
@@ -90,10 +91,20 @@ def make_instance(rng, tier):
         reads = gen.gen_reads(rng, n_reads, n_alleles, n_nucl=n_nucl, style=str(rng.choice(["mchap", "dirichlet"])))
     if n_reads == 0:
         reads = np.full((1, n_pos, n_nucl), np.nan)
+    elif rng.random() < 0.2:
+        # session 4: probabilities of exactly 0 for alleles the known haplotypes carry (phred-0 base calls under
+        # --use-base-phred-scores, hard calls): a factor of zero is not a gap - the read excludes that haplotype
+        z = (rng.random(reads.shape) < 0.2) & ~np.isnan(reads)
+        z &= np.arange(n_nucl)[None, None, :] < n_alleles[None, :, None]
+        # one haplotype keeps a positive probability under every read, so the posterior is defined (a read that excludes every
+        # known haplotype leaves nothing to compare)
+        keep = haps[int(rng.integers(n_haps))]
+        z[:, np.arange(n_pos), keep.astype(int)] = False
+        reads = np.where(z, 0.0, reads)
     counts = gen.gen_counts(rng, len(reads), mode=str(rng.choice(["ones", "rand"])))
     freqs = gen.gen_frequencies(rng, n_haps) if n_haps >= 2 else None
     F = gen.gen_inbreeding(rng)
-    return dict(ploidy=ploidy, haps=haps, reads=reads, counts=counts, freqs=freqs, F=F)
+    return dict(ploidy=ploidy, haps=haps, reads=reads, counts=counts, freqs=freqs, F=F, zeros=bool(n_reads and (reads == 0).any()))
 
 
 def pack(I):
@@ -280,6 +291,8 @@ def run_kernel(tier, seed, spec, col):
     for i in range(spec["instances"]):
         rng = gen.rng_for(seed, ID, spec["shard"], i)
         I = make_instance(rng, tier)
+        if I.get("zeros"):
+            col.count("instances_with_zero_probability_read_entries")
         check_instance(I, rng, col, spec["shard"] * 100000 + i, tier)
         if i == 0 and spec["shard"] == 0:
             col.sample({"instance": pack(I)})
